@@ -6,7 +6,7 @@
 From Coq Require Import QArith Qminmax List Bool Arith.
 From WSI Require Import Vqip Pow Tank Arc QTank Distrib Kinds Run TankLaws ArcLaws QueueLaws DistribLaws KindLaws.
 From WSI Require Net NetLaws.
-From WSI Require Kinds Leak LeakLaws Refuted.
+From WSI Require Kinds Leak LeakLaws Refuted Wtw WtwLaws.
 Import ListNotations.
 Open Scope Q_scope.
 
@@ -64,3 +64,11 @@ Example C07_refuted_leak_bounced_to_consumer :
   match Leak.dn_pull_set _ nbport 5 Refuted.w_leak_node (9#1) with Some (_, r) => vol r == 19#2 | None => False end.
 Proof. exact Refuted.C18_refuted_leak_bounced_to_consumer. Qed.
 Print Assumptions C07_refuted_leak_bounced_to_consumer.
+
+(* the sewer push check of a WWTW (coq/Wtw.v, tied by family wtw) is honest in every state: the room it reports is the
+   throughput still free plus the room in the stormwater tank, and any push up to that room is taken in full *)
+Theorem C07_wwtw_push_check_is_honest : forall S (w : Wtw.wwtw S) v, 0 <= vol v -> vol v <= WtwLaws.ww_room S w ->
+  vol (snd (Wtw.ww_push_set S w v)) == 0 /\
+  vol (Wtw.ww_push_check S w (Some v)) == Qmin (WtwLaws.ww_room S w) (vol v).
+Proof. exact WtwLaws.ww_check_is_honest. Qed.
+Print Assumptions C07_wwtw_push_check_is_honest.
